@@ -2,5 +2,6 @@
 HERE="$(cd "$(dirname "$0")" && pwd)"
 case "$1" in /*) F="$1";; *) F="$(pwd)/$1";; esac
 cd "$HERE" || exit 2
+. "$HERE/ensure_deps.sh"
 export PYTHONHASHSEED=0 PYTHONDONTWRITEBYTECODE=1 PYTHONIOENCODING=utf-8
 exec /venv/bin/python -m pbt replay "$F"
